@@ -339,6 +339,9 @@ func TestVerif_C13(t *testing.T) {
 	k := verifkit.Start(t, "C13")
 	prop := c13Prop(k)
 	k.Regress(t, func(sub string, raw json.RawMessage) error {
+		if strings.HasPrefix(sub, "os") {
+			return nil // belongs to the OS part
+		}
 		if strings.HasPrefix(sub, "overlapping") {
 			return verifkit.Decode(raw, c13OverlapProp(k))
 		}
